@@ -500,6 +500,22 @@ def repo_prims(repo, base=None, unroll=64):
             v = base(t, env)
             if v is not None:
                 return v
+        if t[0] == "sym" and isinstance(t[1], str) and "." in t[1] and not t[1].startswith("NUM_"):
+            # a module-level name computed at import time by a call of a module function without arguments (a table built by a loop):
+            # the function's own return term, loops unrolled, evaluated once
+            key = ("global", t[1])
+            if key not in cache:
+                cache[key] = None
+                mod, _, nm = t[1].partition(".")
+                m_ = repo.modules.get(mod)
+                node = m_.globals.get(nm) if m_ is not None and "." not in nm else None
+                if isinstance(node, ast.Call) and isinstance(node.func, ast.Name) and not node.args and not node.keywords and node.func.id in m_.functions:
+                    try:
+                        gt = ret_term(repo, mod, node.func.id, unroll=1024)
+                        cache[key] = (eval_exact(gt, {"$memo": {}}, prims),)
+                    except (AnalysisError, NotEvaluable, RecursionError):
+                        cache[key] = None
+            return cache[key][0] if cache[key] is not None else None
         if t[0] != "call" or not isinstance(t[1], str) or t[1].startswith(".") or "." not in t[1]:
             return None
         name = t[1]
@@ -597,6 +613,8 @@ def _eval_exact(t, env, prims):
         f_ = {"Eq": _op.eq, "NotEq": _op.ne, "Lt": _op.lt, "LtE": _op.le, "Gt": _op.gt, "GtE": _op.ge}.get(t[1])
         if t[1] in ("Is", "IsNot") and (a is None or b is None):
             return (a is b) if t[1] == "Is" else (a is not b)
+        if t[1] in ("In", "NotIn") and isinstance(b, tuple):
+            return (a in b) if t[1] == "In" else (a not in b)
         if f_ is None:
             raise NotEvaluable("comparison %s" % t[1])
         try:
@@ -643,6 +661,19 @@ def _eval_exact(t, env, prims):
                     return {"min": min, "max": max, "sum": lambda z: sum(z, Fraction(0))}[t[1]](v)
         if t[1] in ("min", "max") and len(t) > 3:
             return {"min": min, "max": max}[t[1]](eval_exact(x, env, prims) for x in t[2:])
+        if t[1] in ("frozenset", "set", "tuple", "list", "sorted") and len(t) == 3:
+            v = eval_exact(t[2], env, prims)
+            if isinstance(v, tuple):
+                if t[1] in ("frozenset", "set"):
+                    seen = []
+                    for x in v:
+                        if x not in seen:
+                            seen.append(x)
+                    return tuple(seen)           # a set is represented by the tuple of its distinct members (membership and length are what matters)
+                try:
+                    return tuple(sorted(v)) if t[1] == "sorted" else v
+                except TypeError:
+                    raise NotEvaluable("sorted() of mixed values")
         raise NotEvaluable("call of %s" % t[1])
     if h in ("tuple", "list"):
         return tuple(eval_exact(x, env, prims) for x in t[1:])
@@ -665,6 +696,10 @@ def _eval_exact(t, env, prims):
         if r is not None:
             return r
     if h == "sym":
+        if prims is not None:
+            r = prims(t, env)
+            if r is not None:
+                return r
         raise NotEvaluable("free symbol %s" % t[1])
     raise NotEvaluable("term kind %s" % (h,))
 
